@@ -645,8 +645,12 @@ static void run_case(Out& out, uint64_t ls, unsigned variant) {
         fputc('\n', o);
         Truth t;
         truth(C, file, t);
+        // a failure that no recorded finding explains is reported first
+        size_t pick = 0;
+        for (size_t k = 0; k < t.fails.size(); k++)
+            if (t.fails[k].first == "oas-std-truth") { pick = k; break; }
         if (t.fails.empty()) fputs("ok", o);
-        else fprintf(o, "FAIL %s %s", t.fails[0].first.c_str(), t.fails[0].second.c_str());
+        else fprintf(o, "FAIL %s %s", t.fails[pick].first.c_str(), t.fails[pick].second.c_str());
     };
     if (getenv("OAS_STD_NOFORK")) {
         work(stdout);
@@ -689,7 +693,7 @@ int main(int argc, char** argv) {
     for (auto& c : load_corpus(argc > 4 ? argv[4] : NULL))
         if (c.first == "std") from_payload(c.second);
     Rng g(seed * 0x100000001B3ULL + 12345);
-    int layouts = thorough ? 48000 : 1600;
+    int layouts = thorough ? 16000 : 640;
     for (int li = 0; li < layouts; li++) {
         uint64_t ls = g.next() >> 1;
         run_case(out, ls, (unsigned)(li & 31));
